@@ -98,9 +98,11 @@ CLAIMED = {
     text='PARTIAL. A Gallina model of what nn.vjp / nn.jvp / nn.grad / nn.value_and_grad return for a module computing a polynomial in its scalar variables and inputs (jax autodiff idealised as '
          'the symbolic derivative). Proved for every polynomial, values, filter, cotangent and tangents: exactly the variables of the collections selected by vjp_variables receive a cotangent '
          '(others contribute nothing and do not appear), each cotangent is ct times the partial derivative and `partial` is the derivative, vjp and jvp are adjoint, forward-pass updates are '
-         'applied exactly once. Tied to /repo per run: random polynomial modules (params / batch_stats / cache / counter, 1-3 inputs) under nn.vjp (filters incl. lists and DenyList, has_aux), '
+         'applied exactly once per call: after any history of n direct or differentiated calls on the same bound module a variable the forward pass increments has grown by exactly n and every '
+         'other variable is unchanged. Tied to /repo per run: random polynomial modules (params / batch_stats / cache / counter, 1-3 inputs) under nn.vjp (filters incl. lists and DenyList, has_aux), '
          'nn.jvp (variable_tangents), nn.grad, nn.value_and_grad, nn.custom_vjp; primal, cotangents / tangents, aux and variables afterwards compared in Coq and with jax.vjp / jvp / grad of the '
-         'pure function (variables, inputs) -> module.apply on the real code.',
+         'pure function (variables, inputs) -> module.apply on the real code; every case also as a history of 2-4 direct / differentiated calls on one sub-module bound in setup (scopes live across '
+         'the calls), compared with the model\'s history and with the same sequence of pure Module.apply calls.',
     note='Trusted: Coq kernel, vm_compute, harness, jaxcompat, jax.vjp / jvp / grad. Scalars only (no pytree-shaped primals, reduce_axes unused). custom_vjp: forward value and the effect of the '
          'user rule (observed by differentiating through it with the non-selected collections held constant) are correspondence-only. No axioms.',
     technique='Coq proof (routing by filter, polynomial derivative and adjointness by ring) + per-run correspondence by vm_compute + jax autodiff oracle on the pure apply function',
@@ -178,14 +180,16 @@ CLAIMED = {
          'attention, both parametric in the cell / attention function. Proved for every cell, carry, sequence and seq_len in [1, T]: the valid outputs and the returned carry are those of the '
          'Python loop over the valid inputs (reversed within the valid length for reverse); padded inputs are inert; keep_order only flips the valid outputs back; stepwise decoding through the '
          'cache equals whole-sequence attention under the causal mask for every attention function and cache size; make_attention_mask is the pairwise predicate, row i of make_causal_mask '
-         'selects exactly the keys 0 .. i (the prefix the decode cache holds at step i), combine_masks is the pointwise conjunction of the masks given and None when none is. Tied to /repo '
+         'selects exactly the keys 0 .. i (the prefix the decode cache holds at step i), combine_masks is the pointwise conjunction of the masks given and None when none is; attention over the rationals (logits in units of ln 2): a masked position gets weight exactly 0, '
+         'the weights of a query with an allowed key sum to 1 and are proportional to exp(logit) over the allowed positions (the softmax), subtracting a constant from the logits changes nothing, '
+         'and keys / biases / values at masked positions cannot influence the output. Tied to /repo '
          'per run: the mask helpers of Linen and NNX on integer inputs in four dtypes (values a half-precision float cannot represent included) against the model; an integer cell under nn.RNN / nnx.RNN / Bidirectional '
          '(batch shapes (), (b,), (b1,b2), time_major, initial carries) compared exactly with the model; the real cells against numpy recurrences and the manual loop with padded inputs '
-         'perturbed; attention weights against a numpy softmax, masked weights exactly zero, ignored keys / values perturbed; decode vs causal in Linen and NNX on the same parameters.',
-    note='Trusted: Coq kernel, vm_compute, harness (numpy recurrences and softmax), jaxcompat, float64. NOT proved: softmax / zero weight of masked positions (exp underflow of finfo.min), the cell '
+         'perturbed; attention weights against a numpy softmax, masked weights exactly zero, ignored keys / values perturbed; dot_product_attention(_weights) of Linen and NNX on integer q / k / v / bias in units of ln 2 against the rational model; decode vs causal in Linen and NNX on the same parameters.',
+    note='Trusted: Coq kernel, vm_compute, harness (numpy recurrences and softmax), jaxcompat, float64. NOT proved: that exp(finfo.min - max) is exactly 0 in float arithmetic and the rounding of the float softmax (compared per run), the cell '
          'equations, batching and time_major arithmetic, Linen = NNX: oracle-only. F12 (final carry for more than one batch dimension) fixed. ConvLSTMCell, dropout inside attention, '
          'normalize_qk not covered. No axioms.',
-    technique='Coq proof (list lemmas over the scan; cache invariant by induction) + per-run model-vs-implementation correspondence by vm_compute + paired-input and reference oracles',
+    technique='Coq proof (list lemmas over the scan; cache invariant by induction; field arithmetic over Q for the softmax) + per-run model-vs-implementation correspondence by vm_compute + paired-input and reference oracles',
     ref='DESIGN.md section 5, C13'),
   'C14': dict(
     text='Theorems about hand-written Gallina models of the Linen filter algebra (one fuelled function mirroring union/subtract/intersect_filters, '
